@@ -114,8 +114,8 @@ def main():
                 n, m, p = c["n"], c["m"], c["p"]
                 sh_a = (n, m) if c["op"] == "mm" else (c["batch"], n, m)
                 sh_b = (m, p) if c["op"] == "mm" else (c["batch"], m, p)
-                a = torch.randn(sh_a, generator=gen).to(dtype)
-                bb = torch.randn(sh_b, generator=gen).to(dtype)
+                a = (torch.randn(sh_a, generator=gen) * c.get("mag", 1.0)).to(dtype)
+                bb = (torch.randn(sh_b, generator=gen) * c.get("mag", 1.0)).to(dtype)
                 aq = QT[c["aq"]]
                 qa = quantize_activation(a, aq, absmax_scale(a, aq)) if c["a_q"] else a
                 qb = quantize_activation(bb, aq, absmax_scale(bb, aq)) if c["b_q"] else bb
